@@ -181,3 +181,30 @@ def hook_plans(draw, calls, max_plans=2):
         arg = draw(TEXTS) if what in ('pause', 'kill') else None
         plans.append({'hook': draw(st.sampled_from(HOOK_SITES)), 'occ': draw(st.integers(1, 3)), 'pos': draw(st.sampled_from(['pre', 'post'])), 'do': [what, arg]})
     return plans
+
+
+# ---------------------------------------------------------------------------------------------
+# workchain catalogue for the schedule checks (awaitables are harness futures completed by ['wcfut', id] events)
+# ---------------------------------------------------------------------------------------------
+WC_CATALOGUE = {
+    'wc_await': {
+        'outline': [['step', 'a'], ['step', 'b'], ['step', 'c']],
+        'behaviour': {'rets': {'a': [{'__tc__': {'k': ['fut', 'f1']}}], 'c': [5]}, 'bodies': {'b': [['out', 'x', 1], ['status', 'sb']]}, 'preds': {}},
+    },
+    'wc_loop': {
+        'outline': [['step', 'a'], ['while', 'p', [['step', 'b'], ['step', 'c']]], ['step', 'd']],
+        'behaviour': {'rets': {'c': [{'__tc__': {'k': ['fut', 'f1']}}, {'__tc__': {'k2': ['fut', 'f2']}}]}, 'preds': {'p': [True, True, False]}, 'bodies': {'b': [['out', 'ns.y', 2]]}},
+    },
+    'wc_branch': {
+        'outline': [['if', [['p', [['step', 'a'], ['return', 3]]]], [['step', 'b']]], ['step', 'c']],
+        'behaviour': {'rets': {'b': [{'__tc__': {'k': ['fut', 'f1']}}]}, 'preds': {'p': [False]}, 'tocontext': {'b': [{'k3': ['fut', 'f2']}]}},
+    },
+}
+WC_EVENTS = [['wcfut', 'f1'], ['wcfut', 'f2']]
+
+
+def base(name):
+    """The part of a case that says what runs: {'program': ...} or {'outline': ..., 'behaviour': ...}."""
+    if name in WC_CATALOGUE:
+        return dict(WC_CATALOGUE[name])
+    return {'program': CATALOGUE[name]}
